@@ -111,6 +111,26 @@ def vec_names(spec, vec):
     raise ValueError(f"bad VEC {vec!r}")
 
 
+def vec_mentioned(spec, vec):
+    """Names of the scalar variables a VEC mentions."""
+    if vec[0] == "vexpr":
+        acc = set()
+        for e in vec[1]:
+            mentioned(spec, e, acc)
+        return acc
+    if vec[0] in ("vscale", "vshift"):
+        return vec_mentioned(spec, vec[1])
+    return set(vec_names(spec, vec))
+
+
+def vec_len(spec, vec):
+    if vec[0] == "vexpr":
+        return len(vec[1])
+    if vec[0] in ("vscale", "vshift"):
+        return vec_len(spec, vec[1])
+    return len(vec_names(spec, vec))
+
+
 def mentioned(spec, e, acc=None):
     """Names of the scalar variables an EXPR mentions (set)."""
     if acc is None:
@@ -135,16 +155,16 @@ def mentioned(spec, e, acc=None):
         elif t == "fn":
             stack.append(e[2])
         elif t in ("vsum",):
-            acc.update(vec_names(spec, e[1]))
+            acc.update(vec_mentioned(spec, e[1]))
         elif t == "msum":
             acc.update(element_names(var_decl(spec, e[1])))
         elif t == "lincomb":
-            acc.update(vec_names(spec, e[2]))
+            acc.update(vec_mentioned(spec, e[2]))
         elif t == "dot":
-            acc.update(vec_names(spec, e[1]))
-            acc.update(vec_names(spec, e[2]))
+            acc.update(vec_mentioned(spec, e[1]))
+            acc.update(vec_mentioned(spec, e[2]))
         elif t in ("quad", "norm"):
-            acc.update(vec_names(spec, e[1]))
+            acc.update(vec_mentioned(spec, e[1]))
         elif t == "chain":
             stack.extend(e[2])
         else:
@@ -157,7 +177,7 @@ def con_mentioned(spec, con):
         s = mentioned(spec, con["lhs"])
         mentioned(spec, con["rhs"], s)
         return s
-    return set(vec_names(spec, con["lhs"]))
+    return vec_mentioned(spec, con["lhs"])
 
 
 def params_in(e, acc=None):
@@ -182,6 +202,17 @@ def params_in(e, acc=None):
             stack.append(e[2])
         elif t == "chain":
             stack.extend(e[2])
+        elif t in ("vsum", "norm", "quad"):
+            stack.append(e[1])
+        elif t == "lincomb":
+            stack.append(e[2])
+        elif t == "dot":
+            stack.append(e[1])
+            stack.append(e[2])
+        elif t == "vexpr":
+            stack.extend(e[1])
+        elif t in ("vscale", "vshift"):
+            stack.append(e[1])
     return acc
 
 
@@ -297,6 +328,10 @@ def _build_vec(m, vec):
         return m.vars[vec[1]].T[vec[2], :]
     if t == "msubrow":
         return m.vars[vec[1]][vec[2] : vec[2] + 1, vec[3] : vec[4]][0, :]
+    if t == "vexpr":
+        from optyx.core.vectors import VectorExpression
+
+        return VectorExpression([build_expr(m, e) for e in vec[1]])
     if t == "vscale":
         return build_vec(m, vec[1]) * vec[2]
     if t == "vshift":
@@ -509,12 +544,14 @@ _FN = {
 }
 
 
-def eval_vec(spec, vec, pt):
+def eval_vec(spec, vec, pt, pv=None):
     t = vec[0]
+    if t == "vexpr":
+        return [eval_expr(spec, e, pt, pv) for e in vec[1]]
     if t == "vscale":
-        return [x * vec[2] for x in eval_vec(spec, vec[1], pt)]
+        return [x * vec[2] for x in eval_vec(spec, vec[1], pt, pv)]
     if t == "vshift":
-        return [x + vec[2] for x in eval_vec(spec, vec[1], pt)]
+        return [x + vec[2] for x in eval_vec(spec, vec[1], pt, pv)]
     return [pt[n] for n in vec_names(spec, vec)]
 
 
@@ -550,19 +587,19 @@ def eval_expr(spec, e, pt, pv=None):
     if t == "fn":
         return _FN[e[1]](eval_expr(spec, e[2], pt, pv))
     if t == "vsum":
-        return sum(eval_vec(spec, e[1], pt))
+        return sum(eval_vec(spec, e[1], pt, pv))
     if t == "msum":
         d = var_decl(spec, e[1])
         return sum(pt[mel_name(d, i, j)] for i in range(d["rows"]) for j in range(d["cols"]))
     if t == "lincomb":
-        return sum(c * x for c, x in zip(e[1], eval_vec(spec, e[2], pt)))
+        return sum(c * x for c, x in zip(e[1], eval_vec(spec, e[2], pt, pv)))
     if t == "dot":
-        return sum(a * b for a, b in zip(eval_vec(spec, e[1], pt), eval_vec(spec, e[2], pt)))
+        return sum(a * b for a, b in zip(eval_vec(spec, e[1], pt, pv), eval_vec(spec, e[2], pt, pv)))
     if t == "quad":
-        v = eval_vec(spec, e[1], pt)
+        v = eval_vec(spec, e[1], pt, pv)
         return sum(v[i] * e[2][i][j] * v[j] for i in range(len(v)) for j in range(len(v)))
     if t == "norm":
-        v = eval_vec(spec, e[1], pt)
+        v = eval_vec(spec, e[1], pt, pv)
         return _math.sqrt(sum(x * x for x in v)) if e[2] == 2 else sum(abs(x) for x in v)
     if t == "chain":
         acc = eval_expr(spec, e[2][0], pt, pv)
@@ -578,7 +615,7 @@ def con_violations(spec, con, pt, pv=None):
     if con["k"] == "s":
         vals = [eval_expr(spec, con["lhs"], pt, pv) - eval_expr(spec, con["rhs"], pt, pv)]
     else:
-        vals = [x - con["rhs"] for x in eval_vec(spec, con["lhs"], pt)]
+        vals = [x - con["rhs"] for x in eval_vec(spec, con["lhs"], pt, pv)]
     out = []
     for v in vals:
         if con["sense"] == "<=":
